@@ -43,6 +43,12 @@ Record invD (w : wstate) : Prop := {
   d_late : no_late (w_log w);
 }.
 
+Lemma alookup_In' (i : N) (l : list (N * nat)) v : tab_find i l = Some v -> In (i, v) l.
+Proof.
+  induction l as [|[j u] l IH]; cbn; [discriminate|].
+  destruct (N.eqb_spec i j); intros H; [inversion H; subst; left; reflexivity|right; auto].
+Qed.
+
 Lemma todo'_hnorm cs ss : todo' (hnorm cs ss) = ss.
 Proof. destruct cs, ss; reflexivity. Qed.
 Lemma todo'_match ss : todo' (match ss with [] => HIdle | _ :: _ => HSubs ss end) = ss.
@@ -333,5 +339,155 @@ Lemma d_panic_step w e w' :
   w_panic w' = false.
 Proof.
   intros IA IC Hs1 Hs2 D H. start IA IC D H e; auto; exfalso.
-  all: idtac "left". Show.
+  - specialize (Dclosed _ E0). congruence.
+  - specialize (Dclosed _ E0). specialize (Dnotify _ _ _ eq_refl).
+    destruct Dnotify as [[Hu _]|[[k0 [Hu _]]|Hu]]; congruence.
 Qed.
+
+Lemma d_late_step w e w' :
+  invA w -> invC0 w -> w_straddle w' = false -> w_substraddle w' = false -> invD w -> wstep w e = Some w' ->
+  no_late (w_log w').
+Proof.
+  intros IA IC Hs1 Hs2 D H. start IA IC D H e; auto;
+    try (apply no_late_cons_other; [assumption|intros; discriminate]).
+  (* ERNotifySend: the sub the receive loop holds has not been unsubscribed *)
+  apply no_late_cons; [assumption|]. intros s0 x0 c0 t0 Heq Hin. inversion Heq; subst.
+  specialize (Dlog _ Hin). specialize (Dnotify _ _ _ eq_refl).
+  destruct Dnotify as [[Hu _]|[[k0 [Hu _]]|Hu]]; congruence.
+Qed.
+
+(* ---- assembling ---- *)
+Lemma invD_step w e w' :
+  invA w -> invC0 w -> w_straddle w' = false -> w_substraddle w' = false ->
+  invD w -> wstep w e = Some w' -> invD w'.
+Proof.
+  intros IA IC Hs1 Hs2 D H. constructor.
+  - eapply d_act_step; eauto.
+  - eapply d_pend_noact_step; eauto.
+  - eapply d_early_step; eauto.
+  - eapply d_todo_step; eauto.
+  - eapply d_conf_step; eauto.
+  - eapply d_uniq_step; eauto.
+  - eapply d_confU_step; eauto.
+  - eapply d_newU_step; eauto.
+  - eapply d_notify_step; eauto.
+  - eapply d_closed_step; eauto.
+  - eapply d_log_step; eauto.
+  - eapply d_panic_step; eauto.
+  - eapply d_late_step; eauto.
+Qed.
+
+Lemma invD_init : invD winit.
+Proof.
+  constructor; cbn; unfold quiet, no_act, no_pend; cbn; intros; try contradiction; try discriminate; auto.
+  intros post pre s Heq. destruct post; discriminate.
+Qed.
+
+Lemma straddle_mono_step w e w' : wstep w e = Some w' -> w_straddle w' = false -> w_straddle w = false.
+Proof.
+  intros H Hs. destruct e; step_cases H; wsimp; try assumption.
+  apply orb_false_elim in Hs. tauto.
+Qed.
+Lemma substraddle_mono_step' w e w' : wstep w e = Some w' -> w_substraddle w' = false -> w_substraddle w = false.
+Proof.
+  intros H Hs. destruct e; step_cases H; wsimp; try assumption.
+  apply orb_false_elim in Hs. tauto.
+Qed.
+Lemma flags_mono_run evs : forall w w', wrun evs w = Some w' ->
+  w_straddle w' = false -> w_substraddle w' = false -> w_straddle w = false /\ w_substraddle w = false.
+Proof.
+  induction evs as [|e evs IH]; intros w w' H F1 F2; cbn in H; [inversion H; subst; auto|].
+  destruct (wstep w e) eqn:E; [|discriminate]. destruct (IH _ _ H F1 F2) as [G1 G2].
+  split; [eapply straddle_mono_step; eauto|eapply substraddle_mono_step'; eauto].
+Qed.
+
+Lemma invACD_run evs : forall w w',
+  invA w -> invC0 w -> invD w -> wrun evs w = Some w' ->
+  w_straddle w' = false -> w_substraddle w' = false -> invA w' /\ invC0 w' /\ invD w'.
+Proof.
+  induction evs as [|e evs IH]; intros w w' IA IC D H F1 F2; cbn in H; [inversion H; subst; auto|].
+  destruct (wstep w e) as [w1|] eqn:E; [|discriminate].
+  destruct (flags_mono_run _ _ _ H F1 F2) as [G1 G2].
+  eapply IH; [| | |exact H|assumption|assumption].
+  - eapply invA_step; eauto.
+  - eapply invC0_step; eauto.
+  - eapply invD_step; eauto.
+Qed.
+
+(* ---- the routing theorem ---- *)
+Theorem ws_routing_partial :
+  forall evs w,
+    wrun evs winit = Some w ->
+    w_straddle w = false ->        (* no reconnect began while the receive loop was inside a frame *)
+    w_substraddle w = false ->     (* ... or while a Subscribe() was registering *)
+    (* (a) a notification is handed to s only when the active table maps its server id to s, and then
+           that table entry is the one the abstract ownership table of Spec.v would route by *)
+    (forall s x t, w_rpc w = RNotify s x t -> w_upc w s <> UDone true /\ w_upc w s <> UClosing) /\
+    (forall x s, In (x, s) (w_act w) -> s_cur (w_sub w s) = Some x /\ w_upc w s = UNew) /\
+    (* (b) once Unsubscribe s has returned nil, s owns no server id ... *)
+    (forall s, w_upc w s = UDone true -> owns_nothing (w_act w) s) /\
+    (* ... and no notification was delivered to s after that return, in the whole history *)
+    no_late (w_log w) /\
+    (* (c) no send on / close of a closed notifications channel happened *)
+    w_panic w = false.
+Proof.
+  intros evs w H F1 F2.
+  destruct (invACD_run _ _ _ invA_init invC0_init invD_init H F1 F2) as [IA [IC D]].
+  repeat split.
+  - pose proof (d_notify w D _ _ _ H0) as N. destruct N as [[Hu _]|[[k0 [Hu _]]|Hu]]; congruence.
+  - pose proof (d_notify w D _ _ _ H0) as N. destruct N as [[Hu _]|[[k0 [Hu _]]|Hu]]; congruence.
+  - apply (d_act w D _ _ H0).
+  - apply (d_act w D _ _ H0).
+  - intros s Hu x Hf. unfold spec_route in *. apply alookup_In' in Hf.
+    destruct (d_act w D _ _ Hf) as [_ Hn]. congruence.
+  - exact (d_late w D).
+  - exact (d_panic w D).
+Qed.
+
+(* Without the first hypothesis the statement is false of the model (D18c): the receive loop has taken
+   the confirmation of subscription 0 (server id 7) off the pending table when the connection drops;
+   handleReconnect clears the tables and re-requests 0; the receive loop then records 7 as active; the
+   new confirmation (server id 8) adds a second entry.  Unsubscribe removes only 8; a later
+   notification carrying 7 is handed to the unsubscribed subscription, whose channel is closed. *)
+Definition routing_witness : list wev :=
+  [ESubCfg 0; ESubInflight 0; ESubSend 0 true;
+   EFrame (FReply (Some 1%N) false (Some 7%N));          (* popInflight ... *)
+   EClear; ERcInflight 0; ERcSend true;                 (* ... the reconnect runs in between ... *)
+   ERAddActive; ESubWait 0;                             (* ... addActiveSub(s, 7) *)
+   EFrame (FReply (Some 2%N) false (Some 8%N)); ERAddActive;
+   EUnsubRemove 0 1; ECallReg 1; ECallSend 1 true;
+   EFrame (FReply (Some 3%N) false None); ERDeliver; ECallRecv 1; ECallRemove 1;
+   EUnsubAfterCall 0; EUnsubClose 0;
+   EFrame (FNotif (Some 7%N) 99%N); ERNotifySend].
+
+Theorem ws_routing_refuted :
+  exists evs w, wrun evs winit = Some w /\ w_substraddle w = false /\ w_upc w 0 = UDone true /\
+                w_panic w = true.
+Proof.
+  exists routing_witness.
+  destruct (wrun routing_witness winit) as [w|] eqn:E; [|vm_compute in E; discriminate].
+  exists w. split; [reflexivity|].
+  assert (X : match wrun routing_witness winit with
+              | Some w => negb (w_substraddle w) && match w_upc w 0 with UDone true => true | _ => false end
+                          && w_panic w
+              | None => false end = true) by (vm_compute; reflexivity).
+  rewrite E in X. apply andb_prop in X. destruct X as [X P]. apply andb_prop in X. destruct X as [S U].
+  repeat split.
+  - destruct (w_substraddle w); [discriminate|reflexivity].
+  - destruct (w_upc w 0) as [| | |[]]; try discriminate. reflexivity.
+  - exact P.
+Qed.
+
+(* The interleaving D18a (popInflight ; Unsubscribe ; addActiveSub) is harmless in the repaired code:
+   the subscription is not re-activated and the later notification is dropped. *)
+Example d18a_trace_is_safe :
+  match wrun [ESubCfg 0; ESubInflight 0; ESubSend 0 true;
+              EFrame (FReply (Some 1%N) false (Some 7%N));
+              EUnsubRemove 0 1; EUnsubClose 0;
+              ERAddActive;
+              EFrame (FNotif (Some 7%N) 99%N)] winit with
+  | Some w => negb (w_panic w) && negb (w_straddle w) &&
+              match w_act w, w_rpc w with [], RIdle => true | _, _ => false end
+  | None => false
+  end = true.
+Proof. vm_compute. reflexivity. Qed.
